@@ -6,6 +6,7 @@ CONSTANTS
   MaxTexts = 4
   Flags <- FlagWords
   Verbs <- Levels
+  TextShapes <- OnePlain
   Repaired = TRUE
   Depth = 3
   SeqLevels <- QuickLevels
